@@ -11,7 +11,7 @@
       (what the initial frame and each incremental item must carry), the client-side merge at
       path ++ subPath, and equality of JSON trees up to member order. *)
 From Coq Require Import ZArith.
-From Gv Require Import lib.Bytes lib.Json C02.Model C10.Model.
+From Gv Require Import lib.Bytes lib.Json C02.Model C02.Spec C10.Model.
 Open Scope N_scope.
 
 (* ---------------------------------------------------------------- 1. the stream protocol *)
@@ -132,18 +132,15 @@ Definition shape_ok (descs : list ddesc) (tree : option dtree) : bool :=
   | _, _ => false
   end.
 
-(* defer ids of nested fields: a field without a mark sits only under fields without a mark; a
-   field marked c sits under fields marked c or marked with a proper ancestor of c
-   ([ctx] = the mark of the nearest enclosing field) *)
-Definition scope_field_ok (descs : list ddesc) (ctx df : option N) : bool :=
+(* defer ids of nested fields ([stack] = the marks of all enclosing fields, innermost first): a
+   field without a mark sits only under fields without a mark; a field marked c sits only under
+   fields marked c or marked with a proper ancestor of c (lexical nesting of the fragments) *)
+Definition scope_field_ok (descs : list ddesc) (stack : list N) (df : option N) : bool :=
   match df with
-  | None => match ctx with None => true | Some _ => false end
+  | None => match stack with [] => true | _ => false end
   | Some c =>
     mem_N c (map dd_id descs) &&
-    match ctx with
-    | None => true
-    | Some e => (c =? e) || is_ancestor descs e (parent_of descs c)
-    end
+    forallb (fun e => (c =? e) || is_ancestor descs e (parent_of descs c)) stack
   end.
 
 Definition opt_N_eqb (a b : option N) : bool :=
@@ -153,18 +150,45 @@ Definition opt_N_eqb (a b : option N) : bool :=
   | _, _ => false
   end.
 
+Definition push_mark (df : option N) (stack : list N) : list N :=
+  match df with Some c => c :: stack | None => stack end.
+
 (* [frozen]: inside the items of a list of lists no field may open or join another defer (the
-   pass-through seek of the renderer does not enter nested lists: fieldNodeKindAllowsSeek) *)
-Fixpoint scope_ok (descs : list ddesc) (ctx : option N) (frozen : bool) (n : dnode) : bool :=
+   pass-through seek of the renderer does not enter nested lists: fieldNodeKindAllowsSeek);
+   [ctx] = the mark of the nearest enclosing field *)
+Fixpoint scope_ok (descs : list ddesc) (stack : list N) (ctx : option N) (frozen : bool) (n : dnode) : bool :=
   match n with
   | DLeaf l => is_leaf_node l
-  | DArr _ _ item => scope_ok descs ctx (frozen || match item with DArr _ _ _ => true | _ => false end) item
+  | DArr _ _ item => scope_ok descs stack ctx (frozen || match item with DArr _ _ _ => true | _ => false end) item
   | DObj _ _ _ _ fields =>
     (fix go (fs : list dfield) : bool :=
        match fs with
        | [] => true
        | DFld _ _ _ df v :: r =>
-         (if frozen then opt_N_eqb df ctx else scope_field_ok descs ctx df) && scope_ok descs df frozen v && go r
+         (if frozen then opt_N_eqb df ctx else scope_field_ok descs stack df) &&
+         scope_ok descs (push_mark df stack) df frozen v && go r
+       end) fields
+  end.
+
+(* response keys: distinct within an object, plain, and equal to the data key of an object or
+   list valued field (the planner sends aliases upstream) *)
+Fixpoint names_nodup (l : list bytes) : bool :=
+  match l with [] => true | x :: r => negb (mem_bytes x r) && names_nodup r end.
+Fixpoint names_ok (n : dnode) : bool :=
+  match n with
+  | DLeaf _ => true
+  | DArr _ _ item => match item with DLeaf _ => true | DObj p _ _ _ _ | DArr p _ _ => match p with [] => true | _ => false end end
+                     && names_ok item
+  | DObj _ _ _ _ fields =>
+    names_nodup (map (fun f => match f with DFld nm _ _ _ _ => nm end) fields) &&
+    (fix go (fs : list dfield) : bool :=
+       match fs with
+       | [] => true
+       | DFld nm _ _ _ v :: r =>
+         (match v with
+          | DLeaf _ => true
+          | DObj p _ _ _ _ | DArr p _ _ => match p with [k] => bytes_eqb k nm | _ => false end
+          end) && names_ok v && go r
        end) fields
   end.
 
@@ -219,7 +243,7 @@ Definition root_ok (root : dnode) : bool :=
 
 Definition defer_plan_wf (descs : list ddesc) (root : dnode) (tree : option dtree) : bool :=
   descs_wf descs && shape_ok descs tree && group_ids_nodup tree &&
-  root_ok root && scope_ok descs None false root && paths_ok descs [] None root.
+  root_ok root && scope_ok descs [] None false root && paths_ok descs [] None root && names_ok root.
 
 (* ---------------------------------------------------------------- 3. reconstruction *)
 (* JSON trees up to the order of object members (the merge appends deferred members after the
@@ -292,3 +316,184 @@ Definition client_path (d : ddesc) (i : item) : rpath :=
 
 Definition apply_items (d : ddesc) (items : list item) (t : option json) : option json :=
   fold_left (fun acc i => match acc with Some t => merge_at (client_path d i) (it_members i) t | None => None end) items t.
+
+(* ---------------------------------------------------------------- 4. the renderer on data that needs no completion
+   What resolvable.go prints in defer mode when the completion semantics reports no error
+   ([clean_b]): no mutation, no error, no null bubbling; the initial frame carries the fields
+   without a mark, an item of defer d carries the fields marked d of one object, found by seeking
+   through unmarked fields and fields of the ancestors of d.  These functions are tied to the
+   implementation by the same frame correspondence as the full model (driver: corr:C10/clean) and
+   are what the reconstruction theorems talk about. *)
+Definition clean_b (root : dnode) (data : json) : bool :=
+  match complete_root (fun _ _ => false) (erase root) data with
+  | (Some _, []) => true
+  | _ => false
+  end.
+
+(* the completed value restricted to the fields whose mark satisfies [keep] *)
+Fixpoint proj (keep : option N -> bool) (n : dnode) (parent : json) (tns : list (option bytes)) : json :=
+  match n with
+  | DLeaf l => match leaf_render l parent [] with (Some v, _) => v | (None, _) => JNull end
+  | DArr p _ item =>
+    match get_path p parent with
+    | Some (JArr items) => JArr (map (fun it => proj keep item it tns) items)
+    | _ => JNull
+    end
+  | DObj p _ _ _ fields =>
+    match get_path p parent with
+    | Some (JObj m) =>
+      let value := JObj m in
+      let tns' := typename_of value :: tns in
+      JObj ((fix go (fs : list dfield) : list (bytes * json) :=
+               match fs with
+               | [] => []
+               | DFld name on pon df child :: r =>
+                 if skip_field on pon tns' then go r
+                 else if keep df then (name, proj keep child value tns') :: go r
+                 else go r
+               end) fields)
+    | _ => JNull
+    end
+  end.
+
+Definition keep_layer (L : option N) (df : option N) : bool := opt_N_eqb df L.
+Definition keep_all (_ : option N) : bool := true.
+
+Section CleanRender.
+  Variable descs : list ddesc.
+
+  (* the items of defer d below node n, with paths relative to the value of n *)
+  Fixpoint r_items (d : ddesc) (n : dnode) (parent : json) (tns : list (option bytes)) : list (rpath * list (bytes * json)) :=
+    match n with
+    | DLeaf _ => []
+    | DArr p _ item =>
+      match get_path p parent with
+      | Some (JArr items) =>
+        (fix loop (items : list json) (i : N) : list (rpath * list (bytes * json)) :=
+           match items with
+           | [] => []
+           | it :: rest => map (fun x => (PIdx i :: fst x, snd x)) (r_items d item it tns) ++ loop rest (i + 1)
+           end) items 0
+      | _ => []
+      end
+    | DObj p _ _ _ fields =>
+      match get_path p parent with
+      | Some (JObj m) =>
+        let value := JObj m in
+        let tns' := typename_of value :: tns in
+        let here :=
+          (fix go (fs : list dfield) : list (bytes * json) :=
+             match fs with
+             | [] => []
+             | DFld name on pon df child :: r =>
+               if skip_field on pon tns' then go r
+               else if keep_layer (Some (dd_id d)) df then (name, proj (keep_layer (Some (dd_id d))) child value tns') :: go r
+               else go r
+             end) fields in
+        let deeper :=
+          (fix go (fs : list dfield) : list (rpath * list (bytes * json)) :=
+             match fs with
+             | [] => []
+             | DFld name on pon df child :: r =>
+               if skip_field on pon tns' then go r
+               else if fclass_eqb (classify descs (Some d) df child) FSeek
+                    then map (fun x => (map PName (match child with DObj cp _ _ _ _ | DArr cp _ _ => cp | DLeaf _ => [] end) ++ fst x, snd x))
+                             (r_items d child value tns') ++ go r
+                    else go r
+             end) fields in
+        (match here with [] => [] | ms => [([], ms)] end) ++ deeper
+      | _ => []
+      end
+    end.
+
+  Definition c_items (d : ddesc) (root : dnode) (data : json) : list item :=
+    map (fun x => {| it_path := fst x; it_members := snd x; it_errs := [] |}) (r_items d root data []).
+
+  Definition c_initial (root : dnode) (data : json) : frame :=
+    let live := live_children descs 0 data in
+    {| fr_json := JObj ([(k_data, proj (keep_layer None) root data [])] ++ pending_members live
+                          ++ [(k_hasnext, JBool (nonempty live))]);
+       fr_sum := {| f_pending := map dd_id live; f_incr := []; f_completed := []; f_hasnext := nonempty live |};
+       fr_torn := false |}.
+
+  Definition c_batch (root : dnode) (data : json) (d : ddesc) (outstanding : Z) : frame * list ddesc * Z :=
+    let items := c_items d root data in
+    let live := live_children descs (dd_id d) data in
+    let o' := (outstanding + Z.of_nat (length live) - 1)%Z in
+    let hn := negb (o' =? 0)%Z in
+    ({| fr_json := JObj ([(k_incremental, JArr (map (item_json d) items))]
+                           ++ [(k_completed, JArr [JObj [(k_id, JStr (dec_of_N (dd_id d)))]])]
+                           ++ pending_members live ++ [(k_hasnext, JBool hn)]);
+        fr_sum := {| f_pending := map dd_id live; f_incr := map (fun _ => dd_id d) items;
+                     f_completed := [dd_id d]; f_hasnext := hn |};
+        fr_torn := false |}, live, o').
+
+  (* the frames of a delivery order (descriptors in the order their groups render) *)
+  Fixpoint c_frames (root : dnode) (data : json) (order : list ddesc) (o : Z) : list frame :=
+    match order with
+    | [] => []
+    | d :: r => let '(f, _, o') := c_batch root data d o in f :: c_frames root data r o'
+    end.
+  Definition c_stream (root : dnode) (data : json) (order : list ddesc) : list frame :=
+    c_initial root data :: c_frames root data order (Z.of_nat (length (live_children descs 0 data))).
+
+  (* the client: initial data, then every item merged at the position the frame says *)
+  Definition merge_layer (d : ddesc) (root : dnode) (data : json) (t : option json) : option json :=
+    apply_items d (c_items d root data) t.
+  Definition client_result (root : dnode) (data : json) (order : list ddesc) : option json :=
+    fold_left (fun acc d => merge_layer d root data acc) order (Some (proj (keep_layer None) root data [])).
+End CleanRender.
+
+(* ---------------------------------------------------------------- 5. data that needs no completion at all
+   [strict_clean]: every position the plan reads holds a value of the right kind, no null sits in
+   a non-null position, every typename is a possible type.  On such data the completion
+   semantics of the erased plan reports no error and returns the plain projection
+   (ProofsClean: complete_of_strict_clean). *)
+Definition scalar_ok (p : list bytes) (nl : bool) (accept : json -> bool) (parent : json) : bool :=
+  match get_path p parent with
+  | None | Some JNull => nl
+  | Some x => accept x
+  end.
+Definition leaf_ok (l : node) (parent : json) : bool :=
+  match l with
+  | NNull | NStatic _ | NEmptyObj | NEmptyArr => true
+  | NStr p nl => scalar_ok p nl is_jstr parent
+  | NBool p nl => scalar_ok p nl is_jbool parent
+  | NInt p nl => scalar_ok p nl is_jnum parent
+  | NFloat p nl => scalar_ok p nl is_jnum parent
+  | NBigInt p nl => scalar_ok p nl (fun _ => true) parent
+  | NScalar p nl => scalar_ok p nl (fun _ => true) parent
+  | NEnum p nl _ values inacc =>
+    match get_path p parent with
+    | None | Some JNull => nl
+    | Some (JStr s) => mem_bytes s values && negb (mem_bytes s inacc)
+    | Some _ => false
+    end
+  | _ => false
+  end.
+
+Fixpoint strict_clean (n : dnode) (parent : json) (tns : list (option bytes)) : bool :=
+  match n with
+  | DLeaf l => leaf_ok l parent
+  | DArr p nl item =>
+    match get_path p parent with
+    | None | Some JNull => nl
+    | Some (JArr items) => forallb (fun it => strict_clean item it tns) items
+    | Some _ => false
+    end
+  | DObj p nl ty poss fields =>
+    match get_path p parent with
+    | None | Some JNull => nl
+    | Some (JObj m) =>
+      let value := JObj m in
+      let tns' := typename_of value :: tns in
+      negb (C10.Model.tn_bad ty poss (typename_of value)) &&
+      (fix go (fs : list dfield) : bool :=
+         match fs with
+         | [] => true
+         | DFld _ on pon _ child :: r =>
+           (if skip_field on pon tns' then true else strict_clean child value tns') && go r
+         end) fields
+    | Some _ => false
+    end
+  end.
